@@ -148,6 +148,21 @@ impl<State, B> Call<State, B> {
         })
     }
 
+    /// Proceed to receiving a response without having sent the body.
+    ///
+    /// Used when the server rejects an expect-100 request before the body is sent.
+    pub(crate) fn into_receive_without_body(self) -> Call<RecvResponse, B> {
+        Call {
+            request: self.request,
+            analyzed: self.analyzed,
+            state: BodyState {
+                phase: Phase::RecvResponse,
+                ..self.state
+            },
+            _ph: PhantomData,
+        }
+    }
+
     pub(crate) fn amended(&self) -> &AmendedRequest<B> {
         &self.request
     }
